@@ -599,8 +599,12 @@ def _route(v, source, what):
 
 
 for _src, _nm in enumerate(['forwarded', 'x-forwarded-for', 'x-real-ip', 'peer-only']):
-    harness(PROP, AREQ + '.access_route', name='eq_access_route[%s]' % _nm, setup=_setup, inline=INLINE)((lambda s: lambda v: _route(v, s, 'access_route'))(_src))
-    harness(PROP, AREQ + '.remote_addr', name='eq_remote_addr[%s]' % _nm, setup=_setup, inline=INLINE)((lambda s: lambda v: _route(v, s, 'remote_addr'))(_src))
+    # (the two primary sources that can be accompanied by lower-priority headers are split into one variant per choice: wall-clock only)
+    for _low in ((0, 1) if _src < 2 else (None,)):
+        _fix = {} if _low is None else {'lower-priority-headers-too': _low}
+        _sfx = '' if _low is None else (',with-lower-priority-headers' if _low else ',alone')
+        harness(PROP, AREQ + '.access_route', name='eq_access_route[%s%s]' % (_nm, _sfx), setup=_setup, inline=INLINE, fix=_fix)((lambda s: lambda v: _route(v, s, 'access_route'))(_src))
+        harness(PROP, AREQ + '.remote_addr', name='eq_remote_addr[%s%s]' % (_nm, _sfx), setup=_setup, inline=INLINE, fix=_fix)((lambda s: lambda v: _route(v, s, 'remote_addr'))(_src))
 
 
 # ---------------------------------------------------------------------------
